@@ -472,3 +472,13 @@ Proof.
   induction msgs as [|x r IH]; [reflexivity|]. simpl. unfold decide at 1.
   destruct (nonempty (pm_for x)); [exact IH|]. destruct (pm_ctx x); exact IH.
 Qed.
+
+(** ** the stamp does not depend on any clock reading at stamping time *)
+Lemma stamp_until_exact c t m :
+  pm_until (stamp (mk_until c t) m) = MTime (t / ns_per_s)%Z
+  /\ pm_for (stamp (mk_until c t) m) = MDur (sat (t - c)%Z).
+Proof. split; reflexivity. Qed.
+Lemma stamp_for_exact c d m :
+  pm_until (stamp (mk_for c d) m) = MTime ((c + d) / ns_per_s)%Z
+  /\ pm_for (stamp (mk_for c d) m) = MDur d.
+Proof. split; reflexivity. Qed.
